@@ -862,6 +862,57 @@ def approx_float(e, what):
     CTX.mod_memo[key] = (r, e)
     return SNum(r)
 
+def _pow2_content(t):
+    """largest j such that the simplified Int term t is syntactically 2^j * t' ; returns (t', j)"""
+    t = z3.simplify(t)
+    def tz(n):
+        n = abs(n)
+        if n == 0:
+            return 10**6
+        return (n & -n).bit_length() - 1
+    def content(u):
+        if z3.is_int_value(u):
+            return tz(u.as_long())
+        if z3.is_app(u):
+            k = u.decl().kind()
+            if k == z3.Z3_OP_MUL:
+                return sum(content(a) if z3.is_int_value(a) else 0 for a in u.children())
+            if k == z3.Z3_OP_ADD:
+                return min(content(a) for a in u.children())
+            if k == z3.Z3_OP_ITE:
+                return min(content(u.arg(1)), content(u.arg(2)))
+        return 0
+    j = content(t)
+    if j <= 0 or j >= 10**6:
+        return t, 0
+    def divide(u):
+        if z3.is_int_value(u):
+            return z3.IntVal(u.as_long() >> j) if u.as_long() >= 0 else z3.IntVal(-((-u.as_long()) >> j))
+        k = u.decl().kind()
+        if k == z3.Z3_OP_MUL:
+            out = []; left = j
+            for a in u.children():
+                if z3.is_int_value(a) and left > 0:
+                    c = a.as_long(); d = min(tz(c), left)
+                    out.append(z3.IntVal(c // (1 << d))); left -= d
+                else:
+                    out.append(a)
+            r = out[0]
+            for a in out[1:]:
+                r = r * a
+            return r
+        if k == z3.Z3_OP_ADD:
+            parts = [divide(a) for a in u.children()]
+            r = parts[0]
+            for a in parts[1:]:
+                r = r + a
+            return r
+        if k == z3.Z3_OP_ITE:
+            return z3.If(u.arg(0), divide(u.arg(1)), divide(u.arg(2)))
+        raise CheckerError('pow2 content')
+    return z3.simplify(divide(t)), j
+
+
 def to_float(x, what='int->float'):
     """Python float(x) for int-kind x."""
     if isinstance(x, float):
@@ -873,7 +924,8 @@ def to_float(x, what='int->float'):
     if isinstance(x, SNum):
         if not x.isint:
             return x
-        return float_result(x.t, 0, what)
+        t, j = _pow2_content(x.t)
+        return float_result(t, -j, what)
     raise CheckerError('to_float(%r)' % (x,))
 
 def py_binop(op, a, b):
